@@ -12,7 +12,11 @@ fn strategy() -> impl Strategy<Value = History> {
     (
         prop_oneof![3 => Just(StoreKind::Ref), 3 => Just(StoreKind::Memory), 1 => Just(StoreKind::OptionSlot)],
         prop_oneof![Just(Disc::Full), Just(Disc::ForcedDiscoverable)],
-        cm::auth_cfg(),
+        // hmac-secret configurations under which a PRF request at registration cannot be refused (C09 owns the refusals)
+        (cm::auth_cfg(), prop_oneof![2 => Just(crate::cer::HmacCfg::None), 1 => Just(crate::cer::HmacCfg::WithoutUv), 1 => Just(crate::cer::HmacCfg::WithoutUvMc)]).prop_map(|(mut c, h)| {
+            c.hmac = h;
+            c
+        }),
         proptest::collection::vec(cm::reg_op(all_sites), 1..9),
     )
         .prop_map(|(store, disc, cfg, regs)| History { store, disc, cfg, preload: vec![], ops: regs.into_iter().map(Op::Reg).collect() })
@@ -37,6 +41,15 @@ fn check(ctx: &mut Ctx, h: &History) -> Result<(), String> {
             if r.challenge.is_empty() {
                 ctx.class("challenge/empty");
             }
+            if r.ext & 1 != 0 {
+                ctx.class("extensions/credProps requested");
+            }
+            if r.ext & 2 != 0 {
+                ctx.class(&format!("extensions/PRF requested ({:?})", h.cfg.hmac));
+            }
+            if r.exclude % 4 != 0 {
+                ctx.class(["", "exclude-list/empty", "exclude-list/ids nobody holds", "exclude-list/ids of another RP (reference store)"][r.exclude as usize % 4]);
+            }
         }
     }
     if stats.reg_unexpected_err > 0 {
@@ -47,7 +60,7 @@ fn check(ctx: &mut Ctx, h: &History) -> Result<(), String> {
 }
 
 pub fn run(ctx: &mut Ctx) {
-    ctx.rule = "histories of 1-8 registrations into one store (reference store, MemoryStore, single-slot Option) over 9 (origin, RP ID) sites accepted under C01, with generated challenges (0..128 bytes), user ids/names, algorithm lists, client-data modes, UV requirements, resident-key selections, id lengths 0..255, counter on/off, AAGUIDs. Non-trivial = a registration that succeeded or failed because of its algorithm list; distinct by (store kind, registration request).".into();
+    ctx.rule = "histories of 1-8 registrations into one store (reference store, MemoryStore, single-slot Option) over 9 (origin, RP ID) sites accepted under C01, with generated challenges (0..128 bytes), user ids/names, algorithm lists, client-data modes, UV requirements, resident-key selections, id lengths 0..255, counter on/off, AAGUIDs, attestation preferences, requested extensions (credProps, PRF with one or two inputs on authenticators without / with hmac-secret / with hmac-secret-mc) and exclude lists that exclude nothing (absent, empty, ids nobody holds, ids held for another RP). Non-trivial = a registration that succeeded or failed because of its algorithm list; distinct by (store kind, registration request).".into();
     ctx.assumptions = vec![
         "origins are pure-origin URLs; parameter types are always public-key".into(),
         "the authenticator supports ES256 only, so 'first supported entry' is observable as: success with -7 iff the list is empty or contains -7".into(),
